@@ -181,6 +181,9 @@ func Ls(n *com.Packet) ([]os.FileInfo, error) {
 	if err != nil || c == 0 {
 		return nil, err
 	}
+	if int64(c) > int64(n.Remaining()) {
+		return nil, io.ErrUnexpectedEOF
+	}
 	e := make([]os.FileInfo, c)
 	for i := range e {
 		var v fileInfo
@@ -234,6 +237,9 @@ func WindowList(n *com.Packet) ([]Window, error) {
 	c, err := n.Uint32()
 	if err != nil {
 		return nil, err
+	}
+	if int64(c) > int64(n.Remaining()) {
+		return nil, io.ErrUnexpectedEOF
 	}
 	e := make([]Window, c)
 	for i := range e {
@@ -403,6 +409,9 @@ func FuncRemapList(n *com.Packet) ([]FuncEntry, error) {
 	if err != nil {
 		return nil, err
 	}
+	if int64(c) > int64(n.Remaining()) {
+		return nil, io.ErrUnexpectedEOF
+	}
 	e := make([]FuncEntry, c)
 	for i := range e {
 		if err = e[i].UnmarshalStream(n); err != nil {
@@ -426,6 +435,9 @@ func UserLogins(n *com.Packet) ([]device.Login, error) {
 	c, err := n.Uint16()
 	if err != nil {
 		return nil, err
+	}
+	if int(c) > n.Remaining() {
+		return nil, io.ErrUnexpectedEOF
 	}
 	e := make([]device.Login, c)
 	for i := range e {
@@ -480,6 +492,9 @@ func ProcessList(n *com.Packet) ([]cmd.ProcessInfo, error) {
 	c, err := n.Uint32()
 	if err != nil {
 		return nil, err
+	}
+	if int64(c) > int64(n.Remaining()) {
+		return nil, io.ErrUnexpectedEOF
 	}
 	e := make([]cmd.ProcessInfo, c)
 	for i := range e {
@@ -557,6 +572,9 @@ func Registry(n *com.Packet) ([]regedit.Entry, bool, error) {
 		}
 	} else {
 		c = 1
+	}
+	if int64(c) > int64(n.Remaining()) {
+		return nil, false, io.ErrUnexpectedEOF
 	}
 	r := make([]regedit.Entry, c)
 	for i := range r {
